@@ -115,13 +115,22 @@ class FuncExec(ExprMixin, CallMixin):
                 return i + 1
         raise Undecided("loop not indexed")
 
-    def oblige(self, st, kind, label, goal, lineno=None):
+    def oblige_all(self, st, kind, label, parts, lineno=None):
+        """One obligation whose goal is the conjunction of labelled parts."""
+        if self.dry or not parts:
+            return
+        if len(parts) == 1:
+            return self.oblige(st, kind, "%s.%s" % (label, parts[0][0]), parts[0][1], lineno)
+        self.oblige(st, kind, label, z3.And(*[f for _l, f in parts]), lineno, parts=parts)
+
+    def oblige(self, st, kind, label, goal, lineno=None, parts=None):
         if self.dry:
             return
         if z3.is_true(goal):
             goal = z3.BoolVal(True)
         self.close_heap(st)
         ob = Obligation(self.qual, kind, label, st.pc, goal, st.trace, lineno)
+        ob.parts = parts
         self.attach_facts(ob)
         self.obligations.append(ob)
         st.assume(goal)
@@ -219,6 +228,8 @@ class FuncExec(ExprMixin, CallMixin):
         env = self.spec_env(st)
         for r in c.requires:
             st.assume(env.formula(r))
+        for r in c.assumes:
+            st.assume(env.formula(r))
         if c.raw_requires:
             for f in c.raw_requires(env):
                 st.assume(f)
@@ -269,7 +280,7 @@ class FuncExec(ExprMixin, CallMixin):
             else:
                 allowed = set(c.modifies) | {"$alloc"}
                 for f in st.heap.changed_fields(self.entry_heap):
-                    if f in allowed:
+                    if f in allowed or (f.startswith("$has:") and f[5:] in allowed):
                         continue
                     # fresh objects may be written freely: only pre-existing objects are framed
                     x = z3.Const(fresh_name("x!fr"), V)
@@ -285,15 +296,13 @@ class FuncExec(ExprMixin, CallMixin):
                     self.oblige(st, "frame", "pure-when:" + f, z3.Implies(cond, st.heap.get(f) == self.entry_heap.get(f)), ln)
         if c.inv_exit:
             inv = self.eng.inv(st.heap)
-            for i, f in enumerate(inv):
-                self.oblige(st, "inv", "exit.%d" % (i + 1), f, ln)
+            self.oblige_all(st, "inv", "exit", [(str(i + 1), f) for i, f in enumerate(inv)], ln)
         ts = c.two_state
         if ts is None:
             ts = True
         if ts:
             t2 = self.eng.two_state(self.entry_heap, st.heap, c.labels.get("ts_skip", ()))
-            for i, f in enumerate(t2):
-                self.oblige(st, "two-state", "exit.%d" % (i + 1), f, ln)
+            self.oblige_all(st, "two-state", "exit", [(str(i + 1), f) for i, f in enumerate(t2)], ln)
 
     # ------------------------------------------------------------------
     # statements
